@@ -69,6 +69,18 @@ CHECKS = {
             'repeats, all extreme vertices, only boundary points, exact clockwise cycle in general position.',
             'float curves accept either decision within the orientation noise floor; graham_scan exercised on integer points only',
             'DESIGN.md section 4 C18'),
+    'C07': ('runtime postcondition monitors on rdp.mapping / compute_removed_points; exhaustive small-scope enumeration of index structures + random large structures + every simplifier\'s own (reduced, removed) pair',
+            'mapping(I, reduced, removed) == reduced[I] is checked on EVERY index structure with n <= 8 (quick) / n <= 9 (thorough) - every '
+            'subset with both ends, every ascending position list, sorted and unsorted row orders - and on random structures up to n = 2000 '
+            'and on the pairs returned by all five simplifiers; compute_removed_points must reproduce each simplifier\'s table.',
+            'exhaustive only for the stated finite scope (row permutations are complete for <= 4 rows, sampled beyond)',
+            'DESIGN.md section 4 C07'),
+    'C14': ('runtime postcondition monitors on add_points_even / add_points_even_knees against the executable documented set (same float expressions, exact comparison)',
+            'Every call is compared exactly with the running-minimum-filtered union of mapped knees, evenly index-spaced insertions and '
+            'optional extremes, recomputed with the identical float expressions; power-of-two grids with dyadic thresholds make the '
+            'w == 2*tx and height == ty ties occur exactly; a separate range monitor checks every index is inside the curve.',
+            'rdp.mapping (C07) and the reduction handed in are taken as given',
+            'DESIGN.md section 4 C14'),
 }
 
 BUILDING = {}   # id -> reason (properties not claimed yet)
